@@ -265,6 +265,24 @@ XmlStored(class, props, enc) ==
           IF known(p) THEN <<Serialized(class, p[1]).desc.name, p[2], SerializedType(class, p[1])>>
           ELSE <<p[1], p[2], "">>]
 
+\* ---- the property-behaviour options (all 4 x 4 combinations) ----
+\* A property is unknown to the codec when the database gives no serialized descriptor for it (unknown
+\* class, unknown name, or a property that does not serialize).  IgnoreUnknown drops it, WriteUnknown /
+\* ReadUnknown pass it through under its own name and type, ErrorOnUnknown fails the whole call, and
+\* NoReflection treats every property as unknown-and-passed-through.
+UnknownToWriter(B) ==
+    \E k \in 1..Len(B.inst) : \E x \in 1..Len(B.inst[k].props) :
+        ~(B.inst[k].class \in Classes /\ IsOk(Serialized(B.inst[k].class, B.inst[k].props[x][1])))
+WriteExpected(B, enc) == IF enc = "ErrorOnUnknown" /\ UnknownToWriter(B) THEN "err" ELSE "ok"
+
+UnknownToReader(B, enc) ==
+    \E k \in 1..Len(B.inst) :
+        LET c == B.inst[k].class
+            stored == XmlStored(c, B.inst[k].props, enc)
+        IN \E x \in 1..Len(stored) :
+              ~(c \in Classes /\ IsOk(Canonical(c, stored[x][1])) /\ IsOk(Serialized(c, stored[x][1])))
+ReadExpected(B, enc, dec) == IF dec = "ErrorOnUnknown" /\ UnknownToReader(B, enc) THEN "err" ELSE "ok"
+
 \* C05 (writer direction): the document describes exactly the forest
 DocIssues(doc, B, enc) ==
     LET items == ItemsPre(Root(doc).kids)
